@@ -375,6 +375,10 @@ def typing_rules(ck, c):
         ck.ob("WHO", f.path, "stacks-read-only-through-primitives", not direct,
               "no arm of validate() reads state.opds directly (labels are looked up through the control stack's own methods)" if not direct else
               "an instruction rule reads the operand/control stack directly (%d places): the frame's base height is bypassed" % len(direct), f.loc(direct[0]) if direct else f.loc())
+    # sections that are walked in step (function types with function bodies, ...) are zipped only after their lengths were
+    # compared: zip stops at the shorter one, so a missing body - or a surplus one - would simply not be looked at
+    nzv = zip_length_sweep(ck, c, re.compile(r"concordium_wasm::validate::"), re.compile(r"validate_module$|::validate$"))
+    ck.floor("CMP", "section zips in module validation", nzv, 1)
     # mark_unreachable
     f = getfn(ck, "sc", W, S + "mark_unreachable")
     if f:
